@@ -252,6 +252,30 @@ def run(case, ctx):
             if got.shape != want.shape or float(np.max(np.abs(got - want))) > 1e-4 * scale or tuple(r1.is_torus) != rgroup.transport(g, tuple(root.is_torus)):
                 viols.append(viol("object-level-expression-not-covariant", f"E(g.L) != g.E(L) with operands transformed by GeometricImage.times_group_element (flags {root.is_torus} -> {r1.is_torus}) for g={g.tolist()}; tree {ts}", g=g.tolist()))
                 break
+    # strided convolution of the root with a fresh filter, in the regime where a strided 'same' convolution commutes with
+    # the group at all: zero padding and every extent N with (N-1) % stride == 0
+    if not viols and root.k <= 2:
+        strides = [st for st in (2, 3) if all((n - 1) % st == 0 for n in sp)]
+        if strides:
+            st = strides[int(rng.integers(len(strides)))]
+            kf, pf = int(rng.integers(0, 2)), int(rng.integers(0, 2))
+            Fd = rng.integers(-2, 3, size=(N,) * D + (D,) * kf).astype(np.float32)
+            nt = (False,) * D
+            R0 = geom.GeometricImage(root.data, root.parity, D, nt)
+            c0 = R0.convolve_with(geom.GeometricImage(jnp.asarray(Fd), pf, D, nt), st)
+            evals += 1
+            for gi in rng.choice(len(G), size=min(3, len(G)), replace=False):
+                g = G[int(gi)]
+                Rg = geom.GeometricImage(jnp.asarray(ract.act(D, np.asarray(root.data), root.k, root.parity, g).astype(np.float32)), root.parity, D, nt)
+                Fg = geom.GeometricImage(jnp.asarray(ract.act(D, Fd, kf, pf, g).astype(np.float32)), pf, D, nt)
+                cg = Rg.convolve_with(Fg, st)
+                evals += 1
+                want = ract.act(D, np.asarray(c0.data), c0.k, c0.parity, g)
+                got = np.asarray(cg.data)
+                scale = max(1.0, float(np.max(np.abs(want))) if want.size else 1.0)
+                if got.shape != want.shape or float(np.max(np.abs(got - want))) > 1e-4 * scale or c0.k != root.k + kf or c0.parity != (root.parity + pf) % 2:
+                    viols.append(viol("strided-conv-not-covariant", f"stride {st} convolution of the root (extents {sp}, zero padding) with a filter ({kf},{pf}): E(g.L) != g.E(L) for g={g.tolist()}; tree {ts}", g=g.tolist(), stride=st))
+                    break
     # extra laws on fresh operands
     if not viols:
         k = int(rng.integers(2, (4 if D == 2 else 3) + 1))
